@@ -90,6 +90,7 @@ type Rig struct {
 	Client *ethclient.Client
 	Blocks []*ethfake.Block // by id
 	Specs  map[int]*BlockSpec
+	Broken bool // a call hit the watchdog: the rig must not be used any more
 }
 
 // Addresses of the synced contracts and of the decoys.
@@ -137,7 +138,9 @@ func New(repo string) (*Rig, error) {
 		return nil, err
 	}
 	// one connection: the order of frontend messages is then the order of the code's calls
-	pool, err := pgxpool.Connect(ctx, strings.Replace(pg.ConnString(), "pool_max_conns=4", "pool_max_conns=1", 1))
+	cctx, ccancel := context.WithTimeout(ctx, 20*time.Second)
+	defer ccancel()
+	pool, err := pgxpool.Connect(cctx, strings.Replace(pg.ConnString(), "pool_max_conns=4", "pool_max_conns=1&connect_timeout=10", 1))
 	if err != nil {
 		return nil, err
 	}
@@ -314,13 +317,37 @@ func armRPC(e *ethfake.Server, f *RPCFault) {
 	e.FailCall(f.Call, ethfake.Fault{Kind: k, Delay: 3 * time.Second})
 }
 
-func guard(f func() error) (err error, panicked string) {
-	defer func() {
-		if e := recover(); e != nil {
-			panicked = fmt.Sprint(e)
-		}
+// SyncTimeout bounds one Sync call (context deadline); SyncWatchdog is the point at which the
+// rig gives up on a call that ignores its context.
+const (
+	SyncTimeout  = 30 * time.Second
+	SyncWatchdog = 60 * time.Second
+)
+
+// guard runs f with recover and under a watchdog.
+func (r *Rig) guard(f func() error) (err error, panicked string) {
+	type res struct {
+		err error
+		p   string
+	}
+	ch := make(chan res, 1)
+	go func() {
+		var out res
+		defer func() {
+			if e := recover(); e != nil {
+				out.p = fmt.Sprint(e)
+			}
+			ch <- out
+		}()
+		out.err = f()
 	}()
-	return f(), ""
+	select {
+	case o := <-ch:
+		return o.err, o.p
+	case <-time.After(SyncWatchdog):
+		r.Broken = true
+		return nil, fmt.Sprintf("watchdog: the call did not return within %v", SyncWatchdog)
+	}
 }
 
 // RunSync executes s.Sync(header) with the given faults.  A database fault is placed with
@@ -329,7 +356,8 @@ func guard(f func() error) (err error, panicked string) {
 // sequence, which is then the sequence of the real run.
 func (r *Rig) RunSync(s Syncer, header *types.Header, rf *RPCFault, df *DBFault) Outcome {
 	var out Outcome
-	ctx := r.Ctx
+	ctx, cancel0 := context.WithTimeout(r.Ctx, SyncTimeout)
+	defer cancel0()
 	if rf != nil && rf.Kind == "delay" {
 		var cancel context.CancelFunc
 		ctx, cancel = context.WithTimeout(ctx, 1500*time.Millisecond)
@@ -339,15 +367,15 @@ func (r *Rig) RunSync(s Syncer, header *types.Header, rf *RPCFault, df *DBFault)
 		r.Eth.ResetCalls()
 		armRPC(r.Eth, rf)
 		r.PG.ResetCounters()
-		return guard(func() error { return s.Sync(c, header) })
+		return r.guard(func() error { return s.Sync(c, header) })
 	}
 	if df != nil {
 		snap := r.PG.Store().Snapshot()
 		var ops []DBOp
 		for i := 0; i < 2; i++ {
-			c2 := r.Ctx
-			var cancel context.CancelFunc = func() {}
+			c2, cancel := context.WithTimeout(r.Ctx, SyncTimeout)
 			if rf != nil && rf.Kind == "delay" {
+				cancel()
 				c2, cancel = context.WithTimeout(r.Ctx, 1500*time.Millisecond)
 			}
 			run(c2)
@@ -390,7 +418,7 @@ func (r *Rig) RunSync(s Syncer, header *types.Header, rf *RPCFault, df *DBFault)
 				out.DBNote = fmt.Sprintf("op %d/%d: DropAfterCommit at message %d", oi, len(ops), at)
 			}
 		}
-		out.Err, out.Panic = guard(func() error { return s.Sync(ctx, header) })
+		out.Err, out.Panic = r.guard(func() error { return s.Sync(ctx, header) })
 		if pend := r.PG.PendingFaults(); len(pend) > 0 {
 			// the real run did not reach the message: no database fault happened
 			out.DBFaults = nil
